@@ -238,6 +238,27 @@ def r5_cursor_agreement(ctx):
                   "will not read - Ok, right length, wrong content", "%s:%d" % (b.file, st["l"]))
 
 
+def r6_short_reads(ctx):
+    """the patchers read the old file through an arbitrary `Read + Seek`: `read()` may return fewer bytes than asked for. Either read_exact
+    is used, or the returned count bounds what is consumed; a count that is only compared (with 0) leaves the unread tail of the buffer -
+    zeros - in the data the diff is applied to: Ok, right length, wrong bytes"""
+    from .lib import read_count_uses
+    rule = "C16.R6"
+    ctx.rule(rule, "in zbsdiff, the count returned by every Read::read is used to bound what is consumed (slice bound, advance, argument, return), not only compared")
+    n = 0
+    for b in bodies(ctx):
+        for c in b.calls:
+            if c.bb in b.live_blocks() and re.search(r"\bRead>?::read$", c.orig_name or c.name):
+                n += 1
+                ctx.saw(b)
+                uses, counts = read_count_uses(b, c)
+                ctx.check(bool(uses - {"cmp"}), rule, [b.id, "read-count-used"], "the read count bounds what is consumed",
+                          "%s calls read() and uses the returned count only in comparisons (%s): a reader that returns short reads (pipes, buffered or block sources) "
+                          "leaves the rest of the buffer unfilled and the patcher treats it as old-file data - it returns Ok with wrong bytes" %
+                          (ctx._stable(b.id), sorted(uses) or "not at all"), c.loc())
+    ctx.info("C16.R6: %d Read::read call site(s) in zbsdiff (read_exact needs no count handling)" % n)
+
+
 def r3_seek_not_lost(ctx):
     rule = "C16.R3"
     ctx.rule(rule, "a computed seek is emitted on every path of the iteration; patchers apply a non-zero seek on every iteration path")
@@ -314,7 +335,8 @@ def run(ctx):
     r3_seek_not_lost(ctx)
     r4_controls_not_dropped(ctx)
     r5_cursor_agreement(ctx)
+    r6_short_reads(ctx)
 
 
 from .selftest import for_families as _ff  # noqa: E402
-selftest = _ff(['slice', 'loop'])
+selftest = _ff(['slice', 'loop', 'readloop'])
